@@ -205,6 +205,7 @@ static void exec(const std::string &line) {
     bool unencodable = pgn == 0 || (pdu1 && (pgn & 0xff) != 0) || (esrc > 251 && pgn != 60928UL);
     bool claiming = devOk && g_now < claimUntil[di];             // the oracle's own view: 250 ms after a `claim` op
     bool claimEdge = devOk && g_now == claimUntil[di] && claimUntil[di] != 0;   // boundary instant: either timer build may differ by 1 ms
+    if (devOk && !ret && produced == 0) lastSeq.erase({di, pgn});   // a send that produced nothing may or may not have consumed a sequence id: no expectation for the next one
     if (d >= 0 && devOk && esrc > 251 && pgn != 60928UL && (ret || produced)) C.fail("C04:null-address-sends", "device %d at address %u sent pgn %lu (ret=%d frames=%ld)", di, esrc, pgn, (int)ret, produced);
     if (unencodable && (ret || produced)) C.fail("C01:refusal", "unencodable message pgn=%lu src=%u accepted (ret=%d frames=%ld)", pgn, esrc, (int)ret, produced);
     else if (mode == 0 && (ret || produced)) C.fail("C04:listen-only-sends", "ret=%d frames=%ld", (int)ret, produced);
